@@ -918,6 +918,7 @@ void MEDDLY::fbuilder_forest::setPathToBottom(int L, const minterm &m,
             unsigned z=0;
             addToNode(n, z, m.from(k), cv, cp);
 
+            if (n->isSparse()) n->shrink(z);
             F->createReducedNode(n, cv, cp);
         }
     } // for i
@@ -954,6 +955,7 @@ void MEDDLY::fbuilder_forest::relPathToBottom(int L, const minterm &m,
                     unpacked_node* n = newPrimedNode(k, 1);
                     unsigned z=0;
                     addToNode(n, z, m.to(k), cv, cp);
+                    if (n->isSparse()) n->shrink(z);
                     F->createReducedNode(n, cv, cp);
                 }
             }
@@ -967,6 +969,7 @@ void MEDDLY::fbuilder_forest::relPathToBottom(int L, const minterm &m,
                 unpacked_node* n = newUnprimedNode(k, 1);
                 unsigned z=0;
                 addToNode(n, z, m.from(k), cv, cp);
+                if (n->isSparse()) n->shrink(z);
                 F->createReducedNode(n, cv, cp);
             }
         } // for k
@@ -1001,6 +1004,7 @@ void MEDDLY::fbuilder_forest::relPathToBottom(int L, const minterm &m,
                 unpacked_node* np = newPrimedNode(k, 1);
                 unsigned z=0;
                 addToNode(np, z, m.to(k), cv, cp);
+                if (np->isSparse()) np->shrink(z);
                 F->createReducedNode(np, cv, cp);
             }
 
@@ -1020,6 +1024,7 @@ void MEDDLY::fbuilder_forest::relPathToBottom(int L, const minterm &m,
                     F->redirectSingleton(m.from(k), cp)
                 );
 
+                if (nu->isSparse()) nu->shrink(z);
                 F->createReducedNode(nu, cv, cp);
             }
 
